@@ -178,7 +178,11 @@ func (m *mux) _pipe(ctx context.Context, i uint16) (w wire, err error) {
 	if w = m.muxwires[i].wire.Load().(wire); w == m.init {
 		if w = m.wireFn(ctx); w != m.dead {
 			m.setCloseHookOnWire(i, w)
-			m.muxwires[i].wire.Store(w)
+			if !m.muxwires[i].wire.CompareAndSwap(m.init, w) {
+				// the mux was closed or overridden while dialing: do not bring it back to life with the new wire
+				w.Close()
+				w = m.muxwires[i].wire.Load().(wire)
+			}
 		} else {
 			if err = w.Error(); err != ErrClosing {
 				m.clhks.Load().(func(error))(err)
